@@ -43,7 +43,7 @@ func privacyCase[TV any](ctx context.Context, env *sopenv.Env, tf *TraceFile, na
 		add(Ev{Ev: "HarnessError", Note: errs(err)})
 		return
 	}
-	add(Ev{Ev: "NewStore", T: "t1", S: o.Name, Unique: true, Ok: true})
+	add(Ev{Ev: "NewStore", T: "t1", S: o.Name, Unique: true, Ok: true, Opts: "-"})
 	for i := 1; i <= 3; i++ {
 		v := mk(i)
 		ok, err := b.Add(ctx, i, v)
@@ -60,7 +60,7 @@ func privacyCase[TV any](ctx context.Context, env *sopenv.Env, tf *TraceFile, na
 		}
 		add(Ev{Ev: "Begin", T: label, Mode: "w"})
 		bb, err := sopenv.OpenBtree[int, TV](ctx, t, o.Name)
-		add(Ev{Ev: "OpenStore", T: label, S: o.Name, Ok: err == nil, Note: errs(err)})
+		add(Ev{Ev: "OpenStore", T: label, S: o.Name, Ok: err == nil, Note: errs(err), Opts: "-"})
 		if err != nil {
 			return
 		}
